@@ -375,7 +375,8 @@ static int child_fit(int wfd, const FitCase& fc)
                         " violates " + (it.type == -1 ? ">= " : it.type == 1 ? "<= " : "== ") + fmt(it.value) + " (structures kept " + std::to_string(ncov) + "/" + std::to_string(ncov0) + ")";
       std::string key;
       int ndirs = vario->getDirectionNumber();
-      if (it.elem == 2 && ndirs <= 2) key = "constraint:angle-ignored-when-rotation-is-not-inferred";  // ndir <= ndim: auth_rotation is switched off internally
+      // no ANGLE parameter exists when auth_rotation is off: switched off internally (ndir <= ndim) or by the user's own option
+      if (it.elem == 2 && (ndirs <= 2 || fc.iopt == 2)) key = "constraint:angle-ignored-when-rotation-is-not-inferred";
       else if (it.elem == 2 && fc.iopt == 3 && ncov0 > 1) key = "constraint:angle-ignored-with-lock_samerot";  // the shared rotation is a parameter of the first rotated structure only
       else if (it.elem == 4 && fc.iopt == 6) key = "constraint:sill-bound-applied-to-its-square-root-when-goulard-off";  // value used as a bound on the AIC coefficient
       else if (ncov < ncov0) key = std::string("constraint:violated-after-structure-reduction:") + (it.elem == 1 ? "range" : it.elem == 2 ? "angle" : it.elem == 3 ? "param" : "sill");
@@ -390,10 +391,12 @@ static int child_fit(int wfd, const FitCase& fc)
     {
       double tot = 0; for (int ic = 0; ic < ncov; ic++) tot += model->getCova(ic)->getSill(a, a);
       O("constraint-judged:constantSill");
-      if (std::fabs(tot - 1.) > 1e-6)
+      // The total sill is enforced by an iterative algorithm (Goulard under constraint, stopped on a relative score decrease of tolred=1e-6):
+      // deviations up to 1e-4 (observed: 2e-6, 1e-5) are its convergence tolerance, counted below; beyond that the equality is not met.
+      if (std::fabs(tot - 1.) > 1e-4)
         V(ncov < ncov0 ? "constraint:constant-sill-lost-by-structure-reduction" : "constraint:violated:constantSill=1",
           "total sill of variable " + std::to_string(a) + " = " + fmt(tot) + " (structures kept " + std::to_string(ncov) + "/" + std::to_string(ncov0) + ")");
-      O(std::fabs(tot - 1.) <= 1e-12 ? "constant-sill-exact" : std::fabs(tot - 1.) <= 1e-6 ? "constant-sill-within-1e-6" : "constant-sill-off");
+      O(std::fabs(tot - 1.) <= 1e-12 ? "constant-sill-exact" : std::fabs(tot - 1.) <= 1e-6 ? "constant-sill-within-1e-6" : std::fabs(tot - 1.) <= 1e-4 ? "constant-sill-within-1e-4" : "constant-sill-off");
     }
   }
   // save / reload / krige
@@ -532,16 +535,16 @@ static void run_fit_part(Ctx& C, int nvar)
 
   // ---- cost classes (measured on an idle machine, see mutants/C17/COSTS.txt): everything costs 3-30 ms per fit except
   //   heavyM: a MATERN structure iterated to convergence (Bessel functions in every Gauss-Newton step): 0.3-5 s mono-variate, 8-24 s multivariate
-  //   heavyC: constant-total-sill constraint on NUG+EXP+SPH with 2-3 variables: 25-50 s (2 variables, two directions), 120-135 s (3 variables)
+  //   heavyC: constant-total-sill constraint on NUG+EXP+SPH with 2-3 genuine variables: 1-50 s (2 variables), 110-135 s (3 variables)
   // The heavy classes are kept on explicit small sub-menus; every case gets a cost estimate so that the shards can be balanced.
   auto heavyM = [&](const FitCase& fc) {
     if (fc.istruct != 8 || fc.maxiter < 1000) return false;
     if (fc.vs.nvar == 1) return true;
     return fc.icons == 0 || fc.icons == 3 || fc.icons == 7 || fc.icons == 9;  // the sill / param / contradictory sets end quickly with 2+ variables
   };
-  auto heavyC = [&](const FitCase& fc) { return fc.vs.nvar > 1 && fc.icons == 7 && fc.istruct == 3 && (fc.vs.nvar == 3 || (fc.vs.kind == 0 && fc.vs.vp == 2)); };
+  auto heavyC = [&](const FitCase& fc) { return fc.vs.nvar > 1 && fc.icons == 7 && fc.istruct == 3 && fc.vs.kind == 0; };
   auto estimate = [&](const FitCase& fc) -> double {
-    if (heavyC(fc)) return fc.vs.nvar == 3 ? 130. : 25.;
+    if (heavyC(fc)) return fc.vs.nvar == 3 ? 130. : fc.vs.vp == 2 ? 25. : fc.vs.vp == 0 ? 20. : 3.;  // (pessimistic: these classes have a large spread)
     if (heavyM(fc))
     {
       if (fc.vs.nvar == 3) return fc.vs.vp == 0 ? 11. : 20.;
@@ -566,6 +569,7 @@ static void run_fit_part(Ctx& C, int nvar)
     {
       if (!th || a != 0) return false;
       if (v.nvar == 3) return v.pat[0] == 6 && fc.iopt == 0;                                               // 2 fits (one / two directions)
+      if (v.vp != 2) return true;                                                                           // 28 fits (0.7-6 s, up to 41 s)
       return (is_pair(v, 0, 1) || is_pair(v, 6, 8) || is_pair(v, 2, 3)) && (fc.iopt == 0 || fc.iopt == 5);  // 6 fits
     }
     if (heavyM(fc))
@@ -579,7 +583,8 @@ static void run_fit_part(Ctx& C, int nvar)
         }
         if (v.kind == 1)
           return (dflt && a == 0 && (v.empty < 0 || v.empty == 1)) || (dflt && (a == 2 || a == 3) && v.empty < 0 && (v.code % 4) == 0) ||
-                 (!dflt && a == 0 && v.empty < 0 && (v.code % 64) == (cfg % 64));
+                 (!dflt && a == 0 && v.empty < 0 && (v.code % 64) == (cfg % 64)) ||
+                 (fc.icons == 7 && fc.iopt == 0 && a == 0 && v.empty < 0 && (v.code % 16) == 0);  // constant total sill: 16 more codes
         return a == 0 && (dflt || ((v.pat[0] == 0 || v.pat[0] == 6) && v.vp != 3));
       }
       if (v.nvar == 2)
@@ -597,7 +602,7 @@ static void run_fit_part(Ctx& C, int nvar)
     if (v.kind == 1)
     {
       if (!th && fc.icons == 5 && fc.istruct == 9 && fc.iopt == 0 && a == 0) return true;  // param<=1 is only judged on structures with a third parameter
-      int stride = th ? 4 : (fc.iopt == 0 ? 8 : 32);
+      int stride = th ? 4 : (fc.iopt == 0 ? (fc.icons == 4 ? 4 : 8) : 32);  // (range>=3 is rarely applicable: denser sub-menu)
       if (!dflt && (v.code % stride) != (cfg % stride)) return false;
       if (!dflt && a != 0) return false;
       if (!th && a != 0 && (v.code % 4) != 0) return false;
@@ -614,7 +619,8 @@ static void run_fit_part(Ctx& C, int nvar)
     {
       if (a != 0) return false;
       bool anglecase = fc.icons == 9 && v.vp == 3;  // a rotation constraint is only judged when the rotation is inferred (4 directions)
-      if (!anglecase && (v.pat[0] % 4) != 0) return false;
+      bool samerot = fc.icons == 0 && fc.iopt == 3 && v.vp >= 2 && (fc.istruct == 3 || fc.istruct == 7);  // shared rotation needs two rotated structures
+      if (!anglecase && !samerot && (v.pat[0] % 4) != 0) return false;
     }
     if (!th && nvar == 2 && v.vp == 1) return false;
     if (th && a >= 2 && !dflt) return false;
